@@ -65,7 +65,13 @@ Record Inv (cfg : config) (s : sstate) : Prop := {
   inv_used_waiters : ∀ w, w ∈ st_waiters s → w_key w ∈ st_used s ∧ ¬ (∃ n, live s n (w_key w));
   inv_waiter_keys : NoDup (map w_key (st_waiters s));
   (* time *)
-  inv_gc : st_now s < st_gc_next s
+  inv_gc : st_now s < st_gc_next s;
+  (* added by seqinv (needed for ERestart: the restart reloads the sessions from the FILE, and inv_views only
+     says that file and listing agree as sets of holds, which does not give inv_owner/inv_nodup for the
+     reloaded map): the state file and the session table agree session by session, up to sessions with no hold
+     (EConnect adds an empty session without saving). Implies the second conjunct of inv_views. *)
+  inv_file_eq : c_file cfg = true →
+      ∀ sid, default [] (default ∅ (st_file s) !! sid) = default [] (st_sessions s !! sid)
 }.
 
 (** ** Observable equality: everything a client or the admin can observe, i.e. all of the state
